@@ -50,6 +50,7 @@ type gen struct {
 	t   *Tape
 	o   GenOpts
 	v   primitive.ProtocolVersion
+	vocab bool // identifiers come from identVocabulary
 	big bool // a big field is still owed to this message
 	max int
 	// Version classes. DSE1=0x41 and DSE2=0x42 compare greater than every OSS version, exactly as the
@@ -71,8 +72,17 @@ func newGen(t *Tape, o GenOpts) *gen {
 	g.v5d2 = v == primitive.ProtocolVersion5 || v == primitive.ProtocolVersionDse2
 	g.v5only = v == primitive.ProtocolVersion5
 	g.dse = v.IsDse()
+	// swarm: a quarter of the frames draw all their identifiers from a four-word vocabulary, so that the
+	// same keyspace / table / type names recur across frames with different definitions (a renamed field,
+	// a changed field type): anything memoised by name then meets a second definition
+	g.vocab = t.Bool("gen.vocab", 0.25)
 	return g
 }
+
+var identVocabulary = []string{"ks", "tbl", "address", "v"}
+
+// edgeLens are lengths around the powers of two where a fixed-size scratch buffer would end.
+var edgeLens = []int{15, 16, 17, 31, 32, 33, 62, 63, 64, 65, 66, 127, 128, 129, 255, 256, 257}
 
 // GenFrame draws one version-valid frame from the tape. Stream id is set to streamId, whatever the
 // message (the caller picks -1 for EVENTs if it cares, and stays within int8 for v2: streamid.go:38).
@@ -160,6 +170,9 @@ func (g *gen) size(site string, min int) int {
 // 16-bit length).
 func (g *gen) text(site string, min, max int) string {
 	n := min + g.t.DrawGeo(site+".len", max-min+1)
+	if max >= 20 && g.t.Bool(site+".edge", 0.05) {
+		n = edgeLens[g.t.Draw(site+".edgelen", len(edgeLens))]
+	}
 	if n == 0 {
 		return ""
 	}
@@ -173,7 +186,13 @@ func (g *gen) text(site string, min, max int) string {
 
 // ident draws a non-empty identifier (keyspace, table, column, function ... names).
 func (g *gen) ident(site string) string {
+	if g.vocab {
+		return identVocabulary[g.t.Draw(site+".word", len(identVocabulary))]
+	}
 	n := 1 + g.t.DrawGeo(site+".len", 10)
+	if g.t.Bool(site+".edge", 0.03) {
+		n = edgeLens[g.t.Draw(site+".edgelen", len(edgeLens))]
+	}
 	x := newXs(uint64(g.t.Draw(site+".s", 1<<16)))
 	b := make([]byte, n)
 	for i := range b {
@@ -333,6 +352,13 @@ func (g *gen) message() message.Message {
 	}
 	k := g.t.Draw("kind", len(ks))
 	g.big = g.t.Bool("big", g.o.BigChance)
+	if g.vocab && resp && g.t.Bool("gen.vocab.metadata", 0.5) {
+		// recurring names matter where definitions travel: column specs of RESULT Rows / Prepared
+		if g.t.Bool("gen.vocab.prepared", 0.5) {
+			return g.prepared()
+		}
+		return g.rows()
+	}
 	return ks[k].fn()
 }
 
@@ -540,6 +566,14 @@ func (g *gen) dtype(site string, depth int) datatype.DataType {
 	classes := 2
 	if depth < 2 {
 		classes = 3
+	}
+	if g.vocab && g.v3 && depth == 0 && g.t.Bool(site+".vocab.udt", 0.5) {
+		ut := &datatype.UserDefined{Keyspace: g.ident(site + ".udtks"), Name: g.ident(site + ".udt")}
+		for i, n := 0, 1+g.t.Draw(site+".nfields", 3); i < n; i++ {
+			ut.FieldNames = append(ut.FieldNames, g.ident(site+".field"))
+			ut.FieldTypes = append(ut.FieldTypes, g.dtype(site, depth+1))
+		}
+		return ut
 	}
 	switch g.t.DrawP(site+".class", classes, 0.6) {
 	case 1:
